@@ -95,6 +95,25 @@ func (g *Gen) genStatHistory(prop string) {
 	n := r.Range(5, 30)
 	for i := 0; i < n; i++ {
 		q := quad()
+		if r.Bool(30) {
+			// a chain of operations on the same statistics: inexact additions first, so that the running
+			// compensation of the Kahan sum is not zero when the later operations scale / merge it
+			line := "stat " + sh(q)
+			for k, m := 0, r.Range(2, 6); k < m; k++ {
+				switch r.Pick(45, 20, 20, 15) {
+				case 0:
+					line += " add " + hexF(val()*(1+r.Float01())) + " " + hexF(float64(r.Range(1, 4096))/1000)
+				case 1:
+					line += " rescale " + hexF(factor())
+				case 2:
+					line += " reweight " + hexF(factor())
+				default:
+					line += " merge " + sh(quad())
+				}
+			}
+			g.emit("%s", line)
+			continue
+		}
 		switch r.Pick(20, 25, 20, 20, 15) {
 		case 0:
 			g.emit("stat " + sh(q) + " new")
